@@ -70,7 +70,7 @@ def run(ctx):
     ctx.assumptions += ["forced iteration orders at each range-over-map site (rangemap rewriter of the design) are not implemented: map-order independence is sampled by repeated runs only",
                         "Coq part: C11_* theorems about the once-cell/pool model (Api/Objects.v)"]
     cases = []
-    n = 600 if quick else 10000
+    n = 2000 if quick else 10000
     for _ in range(n):
         pool = rand_pool(rng)
         ops = rand_ops(rng, pool, rng.randint(3, 12))
